@@ -317,6 +317,11 @@ func signedByNode() {
 		msgs = append(msgs, proch.Msg{Seq: 5, TSOff: o, Payload: []byte{1, 2, 3}, Emitter: e, Chain: 2, Target: 255, CL: 1, Nonce: 9})
 	}
 	msgs = append(msgs, proch.Msg{Seq: 5, TSOff: 12, Payload: []byte{1, 2, 4}, Emitter: e, Chain: 2, Target: 255, CL: 1, Nonce: 9}) // same id, other payload
+	// block times with a sub-second part (the Alephium watcher reports milliseconds): the VAA's timestamp is the
+	// whole second, truncated - observations at .400 and .600 of one second are one message, one digest
+	for _, ms := range []int{1, 400, 499, 500, 501, 600, 999} {
+		msgs = append(msgs, proch.Msg{Seq: 5, TSOff: 0, TSMs: ms, Payload: []byte{1, 2, 3}, Emitter: e, Chain: 2, Target: 255, CL: 1, Nonce: 9})
+	}
 	w := proch.NewWorld()
 	c := proch.Config{Name: "digest-of-own-observation", Sets: [][]int{{0}, {0, 1, 2}}, OwnKey: 0, Msgs: msgs}
 	x := &proch.Explorer{R: r, W: w, C: &c, Oracles: map[string]bool{}}
